@@ -281,8 +281,9 @@ MAX_LINE = 1048576
 
 
 def split_keepends(t):
-    """fh.readlines() of a text without carriage returns"""
-    parts = t.split("\n")
+    """the lines of a FILE are Python's text-mode lines (universal newlines): a line ends at '\\n', '\\r\\n' or a lone '\\r'
+    (each handed over as '\\n') and NOWHERE else — not at \\x0b, \\x0c, \\x1c-\\x1e, U+0085, U+2028, U+2029"""
+    parts = t.replace("\r\n", "\n").replace("\r", "\n").split("\n")
     return [x + "\n" for x in parts[:-1]] + ([parts[-1]] if parts[-1] else [])
 
 
@@ -755,8 +756,10 @@ def subsequence_violation(lines, out):
         m = marker(o)
         if len(m) > 1:
             return "output line %r carries two markers" % o
-        if o != "" and not m:
+        if o != "" and not m and not any(l != "" and not marker(l) for l in lines):
             return "output line %r has no source line" % o
+        # (an unmarked line — blank, or the part of a file line behind a carriage return — is matched to the next unmarked
+        # source line in order)
         want = m[0] if m else None
         while pos < len(src) and src[pos] != want:
             pos += 1
@@ -859,9 +862,7 @@ def order_violation(case, res):
 
 
 def finding_of(case):
-    """listed finding a failure on this case is an instance of — decided on the INPUT alone"""
-    if case["kind"] == "file" and "\r" in case["text"]:
-        return "clean-file-splits-at-cr"
+    """listed finding a failure on this case is an instance of — decided on the INPUT alone (none is listed for C10)"""
     return None
 
 
@@ -1006,6 +1007,9 @@ def run(chk):
         "the order of the filters dict a provider hands to clean_content is stated by the harness from core/filters.py "
         "(registration order, set arguments sorted, implementation before registry point) and checked by the comparison",
         "Keyword.mapping() is read from a set: compared sorted",
+        "lines of a file = Python text-mode lines (universal newlines): clean_file opens the file with open(path, 'r'), so "
+        "'\\n', '\\r\\n' and a lone '\\r' end a line and are handed on as '\\n'; the model (universalNewlines before readlines) and "
+        "the oracle's independent route cut there and nowhere else",
     ]
     chk.lean()
     try:
